@@ -23,6 +23,10 @@ import Mathlib.Data.Int.ModEq
 import Mathlib.Tactic.Ring
 import Mathlib.Tactic.Linarith
 import Mathlib.Tactic.NormNum
+import Mathlib.Algebra.Order.Field.Rat
+import Mathlib.Algebra.Order.Field.Basic
+import Mathlib.Tactic.Positivity
+import Mathlib.Tactic.FieldSimp
 
 namespace HC
 open Finset
@@ -915,6 +919,249 @@ theorem c03k_rescale_ring (l : Level) (sk : Array Int) (ct : Ct) (j : Nat) :
   rw [c03k_C_mul, c03k_NP.add_co] at h'
   exact h'
 
+/-! ## Part 7: programs — the model evaluator, the reference evaluator with interval bounds -/
+
+theorem c03k_negMul_castQ (n : Nat) (f g : Nat → Int) (c : Nat) :
+    ((negMulR n f g c : Int) : ℚ) = negMulR n (fun i => (f i : ℚ)) (fun i => (g i : ℚ)) c :=
+  c04k_map (Int.castRingHom ℚ) n f g c
+
+/-- ‖a ⋆ b‖∞ ≤ n · ‖a‖∞ · ‖b‖∞ over ℚ -/
+theorem c03k_negMul_absQ (n : Nat) (a b : Nat → ℚ) (A B : ℚ) (ha : ∀ i, i < n → |a i| ≤ A) (hb : ∀ i, i < n → |b i| ≤ B)
+    (hA : 0 ≤ A) {c : Nat} (hc : c < n) : |negMulR n a b c| ≤ n * (A * B) := by
+  unfold negMulR
+  refine le_trans (Finset.abs_sum_le_sum_abs _ _) ?_
+  have h1 : ∀ i ∈ range n, |if i ≤ c then a i * b (c - i) else -(a i * b (n + c - i))| ≤ A * B := by
+    intro i hi
+    have hi' := mem_range.mp hi
+    split
+    · rw [abs_mul]; exact mul_le_mul (ha i hi') (hb _ (by omega)) (abs_nonneg _) hA
+    · rw [abs_neg, abs_mul]; exact mul_le_mul (ha i hi') (hb _ (by omega)) (abs_nonneg _) hA
+  refine le_trans (Finset.sum_le_sum h1) ?_
+  rw [Finset.sum_const, Finset.card_range, nsmul_eq_mul]
+
+theorem c03k_negMul_diffQ (n : Nat) (a a' b b' : Nat → ℚ) {c : Nat} (hc : c < n) :
+    negMulR n a b c - negMulR n a' b' c
+      = negMulR n (fun i => a i - a' i) b c + negMulR n a' (fun i => b i - b' i) c := by
+  have h1 := c04k_sub_left n a a' b c
+  have h2 : negMulR n a' (fun i => b i - b' i) c = negMulR n a' b c - negMulR n a' b' c := by
+    rw [c04k_comm n a' _ hc, c04k_sub_left, c04k_comm n b a' hc, c04k_comm n b' a' hc]
+  rw [h1, h2]; ring
+
+theorem c03k_small_of_q {Q : Nat} {y : Int} {B : ℚ} (h1 : |(y : ℚ)| ≤ B) (h2 : 2 * B < (Q : ℚ)) : 2 * y.natAbs < Q := by
+  have : ((2 * y.natAbs : Nat) : ℚ) < (Q : ℚ) := by
+    push_cast
+    rw [Nat.cast_natAbs, Int.cast_abs]
+    linarith
+  exact_mod_cast this
+
+/-- from a congruence to a bound: if x is centred, x ≡ y (mod Q), y is within e of the reference v, |v| ≤ m and 2(m+e) < Q,
+    then x = y -/
+theorem c03k_exact_of_close {Q : Nat} {x y : Int} {v m e : ℚ} (h : x ≡ y [ZMOD (Q : Int)])
+    (hx : - (Q : Int) < 2 * x ∧ 2 * x ≤ Q) (hy : |(y : ℚ) - v| ≤ e) (hv : |v| ≤ m) (hf : 2 * (m + e) < (Q : ℚ)) : x = y := by
+  apply c03k_eq_of_small h hx
+  apply c03k_small_of_q (B := m + e) _ hf
+  have : (y : ℚ) = ((y : ℚ) - v) + v := by ring
+  rw [this]
+  exact le_trans (abs_add_le _ _) (by linarith)
+
+/-- CKKS programs over the modelled operations -/
+inductive c03k_Prog where
+  | input (i : Nat)
+  | add (a b : c03k_Prog)
+  | sub (a b : c03k_Prog)
+  | neg (a : c03k_Prog)
+  | mul (a b : c03k_Prog)
+  | mulPlain (a : c03k_Prog) (p : Nat)
+  | rescale (a : c03k_Prog)
+  | drop (a : c03k_Prog)
+
+/-- a ciphertext value of the model evaluator: level index in the chain, ciphertext, recorded scale (an exact rational) -/
+structure c03k_Val where
+  lv : Nat
+  ct : Ct
+  scale : ℚ
+
+/-- a plaintext operand: level index, NTT-form polynomial, scale -/
+structure c03k_Plain where
+  lv : Nat
+  poly : RnsPoly
+  scale : ℚ
+
+/-- the operand check of every evaluator entry point (`Ciphertext::is_valid_for` via the model's `ctValid`, non-empty, NTT form) -/
+def c03k_valid (l : Level) (ct : Ct) : Bool := ctValid l ct true false && ct.ntt && decide (ct.polys.size ≠ 0)
+
+/-- `is_scale_within_bounds` on exact rationals: 0 < scale < 2^bits (cf. the model's float predicate `ckksScaleOk`) -/
+def c03k_scaleOk (s : ℚ) (bits : Nat) : Bool := decide (0 < s ∧ s < 2 ^ bits)
+
+def c03k_liftR (x : R Ct) (f : Ct → c03k_Val) : R c03k_Val :=
+  match x with
+  | .ok r => .ok (f r)
+  | .error e => .error e
+
+theorem c03k_liftR_ok {x : R Ct} {f : Ct → c03k_Val} {v : c03k_Val} (h : c03k_liftR x f = .ok v) : ∃ r, x = .ok r ∧ v = f r := by
+  cases x with
+  | ok r => exact ⟨r, rfl, (Except.ok.inj h).symm⟩
+  | error e => cases h
+
+/-- add / sub: same level (`match_parms_id`), same scale (`match_scale`), valid operands, then the model's `ctTranslate` -/
+def c03k_opTranslate (chain : Nat → Level) (sub : Bool) (x y : c03k_Val) : R c03k_Val :=
+  if x.lv ≠ y.lv then .error .refused
+  else if x.scale ≠ y.scale then .error .refused
+  else if !(c03k_valid (chain x.lv) x.ct && c03k_valid (chain x.lv) y.ct) then .error .refused
+  else c03k_liftR (ctTranslate (chain x.lv) x.ct y.ct sub) (fun r => ⟨x.lv, r, x.scale⟩)
+
+def c03k_opNeg (chain : Nat → Level) (x : c03k_Val) : R c03k_Val :=
+  if !(c03k_valid (chain x.lv) x.ct) then .error .refused
+  else c03k_liftR (ctNegate (chain x.lv) x.ct) (fun r => ⟨x.lv, r, x.scale⟩)
+
+/-- multiply: same level, valid operands, the model's `ctMultiplyDyadic`; the scale is the product, refused when out of bounds -/
+def c03k_opMul (chain : Nat → Level) (x y : c03k_Val) : R c03k_Val :=
+  if x.lv ≠ y.lv then .error .refused
+  else if !(c03k_valid (chain x.lv) x.ct && c03k_valid (chain x.lv) y.ct) then .error .refused
+  else if !(c03k_scaleOk (x.scale * y.scale) (bitCount (c03k_Q (chain x.lv)))) then .error .refused
+  else c03k_liftR (ctMultiplyDyadic (chain x.lv) x.ct y.ct) (fun r => ⟨x.lv, r, x.scale * y.scale⟩)
+
+def c03k_opMulPlain (chain : Nat → Level) (x : c03k_Val) (p : c03k_Plain) : R c03k_Val :=
+  if x.lv ≠ p.lv then .error .refused
+  else if !(c03k_valid (chain x.lv) x.ct) then .error .refused
+  else if !(c03k_scaleOk (x.scale * p.scale) (bitCount (c03k_Q (chain x.lv)))) then .error .refused
+  else c03k_liftR (ctMultiplyPlainNtt (chain x.lv) x.ct p.poly) (fun r => ⟨x.lv, r, x.scale * p.scale⟩)
+
+/-- rescale to the next level: the scale is divided by the dropped prime -/
+def c03k_opRescale (chain : Nat → Level) (x : c03k_Val) : R c03k_Val :=
+  if x.lv = 0 then .error .refused
+  else if !(c03k_valid (chain x.lv) x.ct) then .error .refused
+  else c03k_liftR (modSwitchScaleNext (chain x.lv) x.ct) (fun r => ⟨x.lv - 1, r, x.scale / (c03k_qL (chain x.lv) : ℚ)⟩)
+
+def c03k_opDrop (chain : Nat → Level) (x : c03k_Val) : R c03k_Val :=
+  if x.lv = 0 then .error .refused
+  else if !(c03k_valid (chain x.lv) x.ct) then .error .refused
+  else c03k_liftR (modSwitchDropNext (chain x.lv) x.ct) (fun r => ⟨x.lv - 1, r, x.scale⟩)
+
+/-- the MODEL evaluator of programs -/
+def c03k_run (chain : Nat → Level) (cts : Array c03k_Val) (pls : Array c03k_Plain) : c03k_Prog → R c03k_Val
+  | .input i => match cts[i]? with
+      | some v => .ok v
+      | none => .error .refused
+  | .add a b => do let x ← c03k_run chain cts pls a; let y ← c03k_run chain cts pls b; c03k_opTranslate chain false x y
+  | .sub a b => do let x ← c03k_run chain cts pls a; let y ← c03k_run chain cts pls b; c03k_opTranslate chain true x y
+  | .neg a => do let x ← c03k_run chain cts pls a; c03k_opNeg chain x
+  | .mul a b => do let x ← c03k_run chain cts pls a; let y ← c03k_run chain cts pls b; c03k_opMul chain x y
+  | .mulPlain a p => do
+      let x ← c03k_run chain cts pls a
+      match pls[p]? with
+      | some q => c03k_opMulPlain chain x q
+      | none => .error .refused
+  | .rescale a => do let x ← c03k_run chain cts pls a; c03k_opRescale chain x
+  | .drop a => do let x ← c03k_run chain cts pls a; c03k_opDrop chain x
+
+/-- a reference value: level, exact rational polynomial, bound on its ∞-norm (magnitude), bound on the distance of the model's
+    phase from it (noise), exact scale, number of polynomials -/
+structure c03k_Ref where
+  lv : Nat
+  val : Nat → ℚ
+  mag : ℚ
+  err : ℚ
+  scale : ℚ
+  size : Nat
+
+/-- the interval fits into the modulus of its level: 2(mag + err) < Q -/
+def c03k_fits (chain : Nat → Level) (r : c03k_Ref) : Bool := decide (2 * (r.mag + r.err) < (c03k_Q (chain r.lv) : ℚ))
+
+def c03k_refTranslate (sub : Bool) (x y : c03k_Ref) : c03k_Ref :=
+  ⟨x.lv, fun j => if sub then x.val j - y.val j else x.val j + y.val j, x.mag + y.mag, x.err + y.err, x.scale, max x.size y.size⟩
+
+def c03k_refNeg (x : c03k_Ref) : c03k_Ref := ⟨x.lv, fun j => - x.val j, x.mag, x.err, x.scale, x.size⟩
+
+def c03k_refMul (N : Nat) (x y : c03k_Ref) : c03k_Ref :=
+  ⟨x.lv, negMulR N x.val y.val, N * (x.mag * y.mag), N * (x.err * (y.mag + y.err)) + N * (x.mag * y.err), x.scale * y.scale,
+    x.size + y.size - 1⟩
+
+/-- reference data of a plaintext: an integer lift of its polynomial and a bound on its ∞-norm -/
+structure c03k_PlainRef where
+  M : Nat → Int
+  bound : ℚ
+
+def c03k_refMulPlain (N : Nat) (x : c03k_Ref) (p : c03k_PlainRef) (ps : ℚ) : c03k_Ref :=
+  ⟨x.lv, negMulR N x.val (fun i => (p.M i : ℚ)), N * (x.mag * p.bound), N * (x.err * p.bound), x.scale * ps, x.size⟩
+
+/-- rescaling divides value, magnitude, noise and scale by the dropped prime and adds the rounding error
+    (1/2)·Σ_{k<size} ‖s‖₁^k -/
+def c03k_refRescale (chain : Nat → Level) (S1 : Nat) (x : c03k_Ref) : c03k_Ref :=
+  ⟨x.lv - 1, fun j => x.val j / (c03k_qL (chain x.lv) : ℚ), x.mag / (c03k_qL (chain x.lv) : ℚ),
+    (x.err + (c03k_qL (chain x.lv) : ℚ) * ((∑ k ∈ range x.size, S1 ^ k : Nat) : ℚ) / 2) / (c03k_qL (chain x.lv) : ℚ),
+    x.scale / (c03k_qL (chain x.lv) : ℚ), x.size⟩
+
+def c03k_refDrop (x : c03k_Ref) : c03k_Ref := ⟨x.lv - 1, x.val, x.mag, x.err, x.scale, x.size⟩
+
+def c03k_guard (chain : Nat → Level) (r : c03k_Ref) : Option c03k_Ref := if c03k_fits chain r then some r else none
+
+/-- the REFERENCE evaluator: exact rational polynomials with interval bounds (magnitude, noise); `none` when an interval does not
+    fit into the modulus of its level -/
+def c03k_ref (chain : Nat → Level) (N S1 : Nat) (refIn : Nat → c03k_Ref) (pls : Array c03k_Plain) (plRef : Nat → c03k_PlainRef) :
+    c03k_Prog → Option c03k_Ref
+  | .input i => some (refIn i)
+  | .add a b => do
+      let x ← c03k_ref chain N S1 refIn pls plRef a; let y ← c03k_ref chain N S1 refIn pls plRef b
+      c03k_guard chain (c03k_refTranslate false x y)
+  | .sub a b => do
+      let x ← c03k_ref chain N S1 refIn pls plRef a; let y ← c03k_ref chain N S1 refIn pls plRef b
+      c03k_guard chain (c03k_refTranslate true x y)
+  | .neg a => do let x ← c03k_ref chain N S1 refIn pls plRef a; c03k_guard chain (c03k_refNeg x)
+  | .mul a b => do
+      let x ← c03k_ref chain N S1 refIn pls plRef a; let y ← c03k_ref chain N S1 refIn pls plRef b
+      c03k_guard chain (c03k_refMul N x y)
+  | .mulPlain a p => do
+      let x ← c03k_ref chain N S1 refIn pls plRef a
+      match pls[p]? with
+      | some q => c03k_guard chain (c03k_refMulPlain N x (plRef p) q.scale)
+      | none => none
+  | .rescale a => do let x ← c03k_ref chain N S1 refIn pls plRef a; c03k_guard chain (c03k_refRescale chain S1 x)
+  | .drop a => do let x ← c03k_ref chain N S1 refIn pls plRef a; c03k_guard chain (c03k_refDrop x)
+
+/-- a chain of CKKS levels 0 … top: well-formed, tools of the levels' moduli, consecutive levels differ by the last prime -/
+structure c03k_ChainOK (chain : Nat → Level) (top N : Nat) : Prop where
+  wf : ∀ c, c ≤ top → (chain c).WF
+  tool : ∀ c, c ≤ top → c05u_ToolOK (chain c)
+  ckks : ∀ c, c ≤ top → (chain c).scheme = .ckks
+  n : ∀ c, c ≤ top → (chain c).n = N
+  next : ∀ c, c < top → c03k_Next (chain (c + 1)) (chain c)
+
+/-- the invariant relating a model value to its reference value -/
+structure c03k_Inv (chain : Nat → Level) (top N : Nat) (sk : Array Int) (v : c03k_Val) (r : c03k_Ref) : Prop where
+  lv : v.lv = r.lv
+  le : v.lv ≤ top
+  scale : v.scale = r.scale
+  size : v.ct.polys.size = r.size
+  canon : c03k_Canon (chain v.lv) v.ct
+  close : ∀ j, j < N → |((c03k_phase (chain v.lv) sk v.ct j : Int) : ℚ) - r.val j| ≤ r.err
+  mag : ∀ j, j < N → |r.val j| ≤ r.mag
+  mag0 : 0 ≤ r.mag
+  err0 : 0 ≤ r.err
+  fits : c03k_fits chain r = true
+
+theorem c03k_valid_canon {l : Level} {ct : Ct} (h : c03k_valid l ct = true) : CtCanon l ct ∧ ct.ntt = true := by
+  unfold c03k_valid at h
+  simp only [Bool.and_eq_true, decide_eq_true_eq] at h
+  exact ⟨CtCanon.of_ctValid h.1.1 h.2, h.1.2⟩
+
+theorem c03k_cf_one {l : Level} (hs : l.scheme = .ckks) {ct : Ct} (h : CtCanon l ct) : ct.cf = 1 := by
+  have := h.cf
+  unfold c02v_cfOk at this
+  rw [hs] at this
+  exact this
+
+theorem c03k_guard_some {chain : Nat → Level} {r r' : c03k_Ref} (h : c03k_guard chain r = some r') : r' = r ∧ c03k_fits chain r = true := by
+  unfold c03k_guard at h
+  split at h
+  · rename_i hf; exact ⟨(Option.some.inj h).symm, hf⟩
+  · cases h
+
+theorem c03k_fits_q {chain : Nat → Level} {r : c03k_Ref} (h : c03k_fits chain r = true) :
+    2 * (r.mag + r.err) < (c03k_Q (chain r.lv) : ℚ) := by
+  unfold c03k_fits at h
+  exact of_decide_eq_true h
+
 -- @@PROPS@@
 /-! ## Property theorems -/
 
@@ -1077,5 +1324,449 @@ theorem ckks_rescale_phase {l l' : Level} (hl : l.WF) (hl' : l'.WF) (ht : c05u_T
   have s1 := Int.ModEq.mul_left' (c := (c03k_qL l : Int)) lift2
   rw [← hQz, c03k_rescale_ring] at s1
   exact s1.trans (lift1.symm.add_right _)
+
+/-! ### K2, program level: soundness of every operation against the reference evaluator (helpers), then the theorem -/
+
+theorem c03k_inv_of_modEq {chain : Nat → Level} {top N : Nat} {sk : Array Int} (hch : c03k_ChainOK chain top N)
+    {v : c03k_Val} {r : c03k_Ref} (hlv : v.lv = r.lv) (hle : v.lv ≤ top) (hsc : v.scale = r.scale)
+    (hsz : v.ct.polys.size = r.size) (hcan : c03k_Canon (chain v.lv) v.ct) (y : Nat → Int)
+    (hcong : ∀ j, j < N → c03k_phase (chain v.lv) sk v.ct j ≡ y j [ZMOD (c03k_Q (chain v.lv) : Int)])
+    (hy : ∀ j, j < N → |((y j : Int) : ℚ) - r.val j| ≤ r.err) (hmag : ∀ j, j < N → |r.val j| ≤ r.mag)
+    (hmag0 : 0 ≤ r.mag) (herr0 : 0 ≤ r.err) (hf : c03k_fits chain r = true) : c03k_Inv chain top N sk v r := by
+  have hq := c01q_levelQ_of_toolOK (hch.tool _ hle)
+  have hfq := c03k_fits_q hf
+  rw [← hlv] at hfq
+  refine ⟨hlv, hle, hsc, hsz, hcan, fun j hj => ?_, hmag, hmag0, herr0, hf⟩
+  have e := c03k_exact_of_close (hcong j hj) (c03k_phase_centred hq sk hcan (by rw [hch.n _ hle]; exact hj)) (hy j hj)
+    (hmag j hj) hfq
+  rw [e]; exact hy j hj
+
+theorem c03k_translate_sound {chain : Nat → Level} {top N : Nat} {sk : Array Int} (hch : c03k_ChainOK chain top N) (sub : Bool)
+    {x y v : c03k_Val} {rx ry : c03k_Ref} (hx : c03k_Inv chain top N sk x rx) (hy : c03k_Inv chain top N sk y ry)
+    (hop : c03k_opTranslate chain sub x y = .ok v) (hf : c03k_fits chain (c03k_refTranslate sub rx ry) = true) :
+    c03k_Inv chain top N sk v (c03k_refTranslate sub rx ry) := by
+  unfold c03k_opTranslate at hop
+  split at hop
+  · cases hop
+  rename_i h1
+  split at hop
+  · cases hop
+  rename_i h2
+  split at hop
+  · cases hop
+  rename_i h3
+  have hlv : y.lv = x.lv := (not_not.mp h1).symm
+  simp only [Bool.not_eq_true', Bool.and_eq_false_iff, not_or, Bool.not_eq_false] at h3
+  obtain ⟨r, hr, rfl⟩ := c03k_liftR_ok hop
+  have hl := hch.wf _ hx.le
+  have hq := c01q_levelQ_of_toolOK (hch.tool _ hx.le)
+  have hs := hch.ckks _ hx.le
+  have hn := hch.n _ hx.le
+  obtain ⟨ha, hna⟩ := c03k_valid_canon h3.1
+  obtain ⟨hb, hnb⟩ := c03k_valid_canon h3.2
+  have hcf : x.ct.cf = y.ct.cf := by rw [c03k_cf_one hs ha, c03k_cf_one hs hb]
+  have hyc := hy.close
+  rw [hlv] at hyc
+  cases sub
+  · obtain ⟨r', hr', hcr, hnr, _, hsz, hph⟩ := ckks_add_phase hl hq sk ha hb hna hnb hcf
+    rw [hr] at hr'
+    obtain rfl := Except.ok.inj hr'
+    refine c03k_inv_of_modEq hch hx.lv hx.le hx.scale (by show r.polys.size = max rx.size ry.size; rw [hsz, hx.size, hy.size])
+      (.of_ctCanon hcr hnr) (fun j => c03k_phase (chain x.lv) sk x.ct j + c03k_phase (chain x.lv) sk y.ct j)
+      (fun j hj => hph j (by rw [hn]; exact hj)) (fun j hj => ?_) (fun j hj => ?_) (add_nonneg hx.mag0 hy.mag0)
+      (add_nonneg hx.err0 hy.err0) hf
+    · show |((c03k_phase (chain x.lv) sk x.ct j + c03k_phase (chain x.lv) sk y.ct j : Int) : ℚ) - (rx.val j + ry.val j)| ≤ rx.err + ry.err
+      have e : ((c03k_phase (chain x.lv) sk x.ct j + c03k_phase (chain x.lv) sk y.ct j : Int) : ℚ) - (rx.val j + ry.val j)
+          = ((c03k_phase (chain x.lv) sk x.ct j : ℚ) - rx.val j) + ((c03k_phase (chain x.lv) sk y.ct j : ℚ) - ry.val j) := by
+        push_cast; ring
+      rw [e]
+      exact le_trans (abs_add_le _ _) (add_le_add (hx.close j hj) (hyc j hj))
+    · show |rx.val j + ry.val j| ≤ rx.mag + ry.mag
+      exact le_trans (abs_add_le _ _) (add_le_add (hx.mag j hj) (hy.mag j hj))
+  · obtain ⟨r', hr', hcr, hnr, _, hsz, hph⟩ := ckks_sub_phase hl hq sk ha hb hna hnb hcf
+    rw [hr] at hr'
+    obtain rfl := Except.ok.inj hr'
+    refine c03k_inv_of_modEq hch hx.lv hx.le hx.scale (by show r.polys.size = max rx.size ry.size; rw [hsz, hx.size, hy.size])
+      (.of_ctCanon hcr hnr) (fun j => c03k_phase (chain x.lv) sk x.ct j - c03k_phase (chain x.lv) sk y.ct j)
+      (fun j hj => hph j (by rw [hn]; exact hj)) (fun j hj => ?_) (fun j hj => ?_) (add_nonneg hx.mag0 hy.mag0)
+      (add_nonneg hx.err0 hy.err0) hf
+    · show |((c03k_phase (chain x.lv) sk x.ct j - c03k_phase (chain x.lv) sk y.ct j : Int) : ℚ) - (rx.val j - ry.val j)| ≤ rx.err + ry.err
+      have e : ((c03k_phase (chain x.lv) sk x.ct j - c03k_phase (chain x.lv) sk y.ct j : Int) : ℚ) - (rx.val j - ry.val j)
+          = ((c03k_phase (chain x.lv) sk x.ct j : ℚ) - rx.val j) - ((c03k_phase (chain x.lv) sk y.ct j : ℚ) - ry.val j) := by
+        push_cast; ring
+      rw [e]
+      exact le_trans (abs_sub _ _) (add_le_add (hx.close j hj) (hyc j hj))
+    · show |rx.val j - ry.val j| ≤ rx.mag + ry.mag
+      exact le_trans (abs_sub _ _) (add_le_add (hx.mag j hj) (hy.mag j hj))
+
+theorem c03k_neg_sound {chain : Nat → Level} {top N : Nat} {sk : Array Int} (hch : c03k_ChainOK chain top N)
+    {x v : c03k_Val} {rx : c03k_Ref} (hx : c03k_Inv chain top N sk x rx)
+    (hop : c03k_opNeg chain x = .ok v) (hf : c03k_fits chain (c03k_refNeg rx) = true) :
+    c03k_Inv chain top N sk v (c03k_refNeg rx) := by
+  unfold c03k_opNeg at hop
+  split at hop
+  · cases hop
+  rename_i h3
+  simp only [Bool.not_eq_true', Bool.not_eq_false] at h3
+  obtain ⟨r, hr, rfl⟩ := c03k_liftR_ok hop
+  have hl := hch.wf _ hx.le
+  have hq := c01q_levelQ_of_toolOK (hch.tool _ hx.le)
+  have hn := hch.n _ hx.le
+  obtain ⟨ha, hna⟩ := c03k_valid_canon h3
+  obtain ⟨r', hr', hcr, hnr, _, hsz, hph⟩ := ckks_negate_phase hl hq sk ha hna
+  rw [hr] at hr'
+  obtain rfl := Except.ok.inj hr'
+  refine c03k_inv_of_modEq hch hx.lv hx.le hx.scale (by show r.polys.size = rx.size; rw [hsz, hx.size])
+    (.of_ctCanon hcr hnr) (fun j => - c03k_phase (chain x.lv) sk x.ct j)
+    (fun j hj => hph j (by rw [hn]; exact hj)) (fun j hj => ?_) (fun j hj => ?_) hx.mag0 hx.err0 hf
+  · show |((- c03k_phase (chain x.lv) sk x.ct j : Int) : ℚ) - (- rx.val j)| ≤ rx.err
+    have e : ((- c03k_phase (chain x.lv) sk x.ct j : Int) : ℚ) - (- rx.val j)
+        = - ((c03k_phase (chain x.lv) sk x.ct j : ℚ) - rx.val j) := by push_cast; ring
+    rw [e, abs_neg]
+    exact hx.close j hj
+  · show |- rx.val j| ≤ rx.mag
+    rw [abs_neg]; exact hx.mag j hj
+
+
+theorem c03k_mul_sound {chain : Nat → Level} {top N : Nat} {sk : Array Int} (hch : c03k_ChainOK chain top N)
+    {x y v : c03k_Val} {rx ry : c03k_Ref} (hx : c03k_Inv chain top N sk x rx) (hy : c03k_Inv chain top N sk y ry)
+    (hop : c03k_opMul chain x y = .ok v) (hf : c03k_fits chain (c03k_refMul N rx ry) = true) :
+    c03k_Inv chain top N sk v (c03k_refMul N rx ry) := by
+  unfold c03k_opMul at hop
+  split at hop
+  · cases hop
+  rename_i h1
+  split at hop
+  · cases hop
+  rename_i h3
+  split at hop
+  · cases hop
+  have hlv : y.lv = x.lv := (not_not.mp h1).symm
+  simp only [Bool.not_eq_true', Bool.and_eq_false_iff, not_or, Bool.not_eq_false] at h3
+  obtain ⟨r, hr, rfl⟩ := c03k_liftR_ok hop
+  have hl := hch.wf _ hx.le
+  have hq := c01q_levelQ_of_toolOK (hch.tool _ hx.le)
+  have hn := hch.n _ hx.le
+  obtain ⟨ha, hna⟩ := c03k_valid_canon h3.1
+  obtain ⟨hb, hnb⟩ := c03k_valid_canon h3.2
+  have hyc := hy.close
+  rw [hlv] at hyc
+  obtain ⟨r', hr', hcr, _, hsz, _, hph⟩ := ckks_multiply_phase hl hq sk ha hb hna hnb
+  rw [hr] at hr'
+  obtain rfl := Except.ok.inj hr'
+  rw [hn] at hph
+  have hN0 : (0 : ℚ) ≤ (N : ℚ) := Nat.cast_nonneg N
+  have hpb : ∀ i, i < N → |((c03k_phase (chain x.lv) sk y.ct i : Int) : ℚ)| ≤ ry.mag + ry.err := by
+    intro i hi
+    have e : ((c03k_phase (chain x.lv) sk y.ct i : Int) : ℚ) = ry.val i + (((c03k_phase (chain x.lv) sk y.ct i : Int) : ℚ) - ry.val i) := by ring
+    rw [e]
+    exact le_trans (abs_add_le _ _) (add_le_add (hy.mag i hi) (hyc i hi))
+  refine c03k_inv_of_modEq hch hx.lv hx.le (by show x.scale * y.scale = rx.scale * ry.scale; rw [hx.scale, hy.scale])
+    (by show r.polys.size = rx.size + ry.size - 1; rw [hsz, hx.size, hy.size])
+    hcr (fun j => negMulR N (c03k_phase (chain x.lv) sk x.ct) (c03k_phase (chain x.lv) sk y.ct) j)
+    (fun j hj => hph j hj) (fun j hj => ?_) (fun j hj => ?_)
+    (mul_nonneg hN0 (mul_nonneg hx.mag0 hy.mag0))
+    (add_nonneg (mul_nonneg hN0 (mul_nonneg hx.err0 (add_nonneg hy.mag0 hy.err0))) (mul_nonneg hN0 (mul_nonneg hx.mag0 hy.err0))) hf
+  · show |((negMulR N (c03k_phase (chain x.lv) sk x.ct) (c03k_phase (chain x.lv) sk y.ct) j : Int) : ℚ) - negMulR N rx.val ry.val j|
+      ≤ N * (rx.err * (ry.mag + ry.err)) + N * (rx.mag * ry.err)
+    rw [c03k_negMul_castQ, c03k_negMul_diffQ N _ _ _ _ hj]
+    refine le_trans (abs_add_le _ _) (add_le_add ?_ ?_)
+    · exact c03k_negMul_absQ N _ _ _ _ (fun i hi => hx.close i hi) hpb hx.err0 hj
+    · exact c03k_negMul_absQ N _ _ _ _ (fun i hi => hx.mag i hi) (fun i hi => hyc i hi) hx.mag0 hj
+  · show |negMulR N rx.val ry.val j| ≤ N * (rx.mag * ry.mag)
+    exact c03k_negMul_absQ N _ _ _ _ (fun i hi => hx.mag i hi) (fun i hi => hy.mag i hi) hx.mag0 hj
+
+theorem c03k_mulPlain_sound {chain : Nat → Level} {top N : Nat} {sk : Array Int} (hch : c03k_ChainOK chain top N)
+    {x v : c03k_Val} {rx : c03k_Ref} {p : c03k_Plain} {pr : c03k_PlainRef} (hx : c03k_Inv chain top N sk x rx)
+    (hp : RnsCanon (chain p.lv) p.poly) (hM : c03k_PlainLift (chain p.lv) p.poly pr.M)
+    (hMb : ∀ j, j < N → |((pr.M j : Int) : ℚ)| ≤ pr.bound) (hb0 : 0 ≤ pr.bound)
+    (hop : c03k_opMulPlain chain x p = .ok v) (hf : c03k_fits chain (c03k_refMulPlain N rx pr p.scale) = true) :
+    c03k_Inv chain top N sk v (c03k_refMulPlain N rx pr p.scale) := by
+  unfold c03k_opMulPlain at hop
+  split at hop
+  · cases hop
+  rename_i h1
+  split at hop
+  · cases hop
+  rename_i h3
+  split at hop
+  · cases hop
+  have hlv : p.lv = x.lv := (not_not.mp h1).symm
+  rw [hlv] at hp hM
+  simp only [Bool.not_eq_true', Bool.not_eq_false] at h3
+  obtain ⟨r, hr, rfl⟩ := c03k_liftR_ok hop
+  have hl := hch.wf _ hx.le
+  have hq := c01q_levelQ_of_toolOK (hch.tool _ hx.le)
+  have hn := hch.n _ hx.le
+  obtain ⟨ha, hna⟩ := c03k_valid_canon h3
+  obtain ⟨r', hr', hcr, hnr, _, hsz, hph⟩ := ckks_multiply_plain_phase hl hq sk ha hna hp hM
+  rw [hr] at hr'
+  obtain rfl := Except.ok.inj hr'
+  rw [hn] at hph
+  have hN0 : (0 : ℚ) ≤ (N : ℚ) := Nat.cast_nonneg N
+  refine c03k_inv_of_modEq hch hx.lv hx.le (by show x.scale * p.scale = rx.scale * p.scale; rw [hx.scale])
+    (by show r.polys.size = rx.size; rw [hsz, hx.size])
+    (.of_ctCanon hcr hnr) (fun j => negMulR N (c03k_phase (chain x.lv) sk x.ct) pr.M j)
+    (fun j hj => hph j hj) (fun j hj => ?_) (fun j hj => ?_)
+    (mul_nonneg hN0 (mul_nonneg hx.mag0 hb0)) (mul_nonneg hN0 (mul_nonneg hx.err0 hb0)) hf
+  · show |((negMulR N (c03k_phase (chain x.lv) sk x.ct) pr.M j : Int) : ℚ) - negMulR N rx.val (fun i => (pr.M i : ℚ)) j|
+      ≤ N * (rx.err * pr.bound)
+    rw [c03k_negMul_castQ, ← c04k_sub_left]
+    exact c03k_negMul_absQ N _ _ _ _ (fun i hi => hx.close i hi) hMb hx.err0 hj
+  · show |negMulR N rx.val (fun i => (pr.M i : ℚ)) j| ≤ N * (rx.mag * pr.bound)
+    exact c03k_negMul_absQ N _ _ _ _ (fun i hi => hx.mag i hi) hMb hx.mag0 hj
+
+theorem c03k_drop_sound {chain : Nat → Level} {top N : Nat} {sk : Array Int} (hch : c03k_ChainOK chain top N)
+    {x v : c03k_Val} {rx : c03k_Ref} (hx : c03k_Inv chain top N sk x rx)
+    (hop : c03k_opDrop chain x = .ok v) (hf : c03k_fits chain (c03k_refDrop rx) = true) :
+    c03k_Inv chain top N sk v (c03k_refDrop rx) := by
+  unfold c03k_opDrop at hop
+  split at hop
+  · cases hop
+  rename_i h0
+  split at hop
+  · cases hop
+  obtain ⟨r, hr, rfl⟩ := c03k_liftR_ok hop
+  have hle := hx.le
+  have e : x.lv - 1 + 1 = x.lv := by omega
+  have hnx := hch.next (x.lv - 1) (by omega)
+  rw [e] at hnx
+  have hl := hch.wf _ hx.le
+  have hl' := hch.wf (x.lv - 1) (by omega)
+  have hq := c01q_levelQ_of_toolOK (hch.tool _ hx.le)
+  have hq' := c01q_levelQ_of_toolOK (hch.tool (x.lv - 1) (by omega))
+  have hn := hch.n _ hx.le
+  obtain ⟨r', hr', hcr, _, hsz, _, hph⟩ := ckks_mod_switch_drop_phase hl hl' hq hq' hnx sk hx.canon
+  rw [hr] at hr'
+  obtain rfl := Except.ok.inj hr'
+  rw [hn] at hph
+  exact c03k_inv_of_modEq hch (v := ⟨x.lv - 1, r, x.scale⟩) (r := c03k_refDrop rx)
+    (by show x.lv - 1 = rx.lv - 1; rw [hx.lv]) (by show x.lv - 1 ≤ top; omega) hx.scale
+    (by show r.polys.size = rx.size; rw [hsz, hx.size]) hcr (fun j => c03k_phase (chain x.lv) sk x.ct j)
+    (fun j hj => hph j hj) (fun j hj => hx.close j hj) (fun j hj => hx.mag j hj) hx.mag0 hx.err0 hf
+
+theorem c03k_abs_natAbs_le {ρ : Int} {B : Nat} (h : 2 * ρ.natAbs ≤ B) : |((ρ : Int) : ℚ)| ≤ (B : ℚ) / 2 := by
+  have h1 : ((2 * ρ.natAbs : Nat) : ℚ) ≤ (B : ℚ) := by exact_mod_cast h
+  push_cast at h1
+  rw [Nat.cast_natAbs, Int.cast_abs] at h1
+  linarith
+
+theorem c03k_rescale_sound {chain : Nat → Level} {top N : Nat} {sk : Array Int} (hch : c03k_ChainOK chain top N)
+    {x v : c03k_Val} {rx : c03k_Ref} (hx : c03k_Inv chain top N sk x rx)
+    (hop : c03k_opRescale chain x = .ok v) (hf : c03k_fits chain (c03k_refRescale chain (c03k_skL1 N sk) rx) = true) :
+    c03k_Inv chain top N sk v (c03k_refRescale chain (c03k_skL1 N sk) rx) := by
+  unfold c03k_opRescale at hop
+  split at hop
+  · cases hop
+  rename_i h0
+  split at hop
+  · cases hop
+  obtain ⟨r, hr, rfl⟩ := c03k_liftR_ok hop
+  have hle := hx.le
+  have e : x.lv - 1 + 1 = x.lv := by omega
+  have hnx := hch.next (x.lv - 1) (by omega)
+  rw [e] at hnx
+  have hl := hch.wf _ hx.le
+  have hl' := hch.wf (x.lv - 1) (by omega)
+  have ht := hch.tool _ hx.le
+  have hq := c01q_levelQ_of_toolOK ht
+  have hq' := c01q_levelQ_of_toolOK (hch.tool (x.lv - 1) (by omega))
+  have hn := hch.n _ hx.le
+  obtain ⟨r', hr', hcr, _, hsz, hQ, hph, hbd⟩ := ckks_rescale_phase hl hl' ht hq' hnx (hch.ckks _ hx.le) sk hx.canon
+  rw [hr] at hr'
+  obtain rfl := Except.ok.inj hr'
+  rw [hn] at hph hbd
+  have h2 : 2 ≤ (chain x.lv).size := by
+    have h1 := hnx.size; have h3 := hq'.bwf.pos; rw [hq'.size_eq] at h3; omega
+  have hqLwf := (c01o_level_comp hl (show (chain x.lv).size - 1 < (chain x.lv).size by omega)).2.2.2
+  have hqLn : 0 < c03k_qL (chain x.lv) := by have := hqLwf.two_le; unfold c03k_qL; omega
+  have hqL : (0 : ℚ) < (c03k_qL (chain x.lv) : ℚ) := by exact_mod_cast hqLn
+  have hfq := c03k_fits_q hf
+  have hlv' : (c03k_refRescale chain (c03k_skL1 N sk) rx).lv = x.lv - 1 := by show rx.lv - 1 = x.lv - 1; rw [hx.lv]
+  rw [hlv'] at hfq
+  have hrlv : rx.lv = x.lv := hx.lv.symm
+  -- abbreviations
+  generalize hS : ((∑ k ∈ range rx.size, (c03k_skL1 N sk) ^ k : Nat) : ℚ) = S at hfq
+  have hfq' : 2 * (rx.mag / (c03k_qL (chain x.lv) : ℚ)
+      + (rx.err + (c03k_qL (chain x.lv) : ℚ) * S / 2) / (c03k_qL (chain x.lv) : ℚ)) < (c03k_Q (chain (x.lv - 1)) : ℚ) := by
+    have := hfq
+    simp only [c03k_refRescale, hrlv, hS] at this
+    exact this
+  have hQq : (c03k_Q (chain x.lv) : ℚ) = (c03k_Q (chain (x.lv - 1)) : ℚ) * (c03k_qL (chain x.lv) : ℚ) := by
+    rw [hQ]; push_cast; ring
+  have hfits : 2 * (rx.mag + (rx.err + (c03k_qL (chain x.lv) : ℚ) * S / 2)) < (c03k_Q (chain x.lv) : ℚ) := by
+    rw [hQq]
+    have := mul_lt_mul_of_pos_right hfq' hqL
+    have e2 : 2 * (rx.mag / (c03k_qL (chain x.lv) : ℚ)
+      + (rx.err + (c03k_qL (chain x.lv) : ℚ) * S / 2) / (c03k_qL (chain x.lv) : ℚ)) * (c03k_qL (chain x.lv) : ℚ)
+        = 2 * (rx.mag + (rx.err + (c03k_qL (chain x.lv) : ℚ) * S / 2)) := by
+      field_simp
+    rw [e2] at this
+    exact this
+  have hrho : ∀ j, j < N → |((c03k_rescaleErr (chain x.lv) sk x.ct j : Int) : ℚ)| ≤ (c03k_qL (chain x.lv) : ℚ) * S / 2 := by
+    intro j hj
+    have := c03k_abs_natAbs_le (hbd j hj)
+    rw [hx.size] at this
+    push_cast at this
+    rw [← hS]
+    push_cast
+    exact this
+  have hexact : ∀ j, j < N → (c03k_qL (chain x.lv) : Int) * c03k_phase (chain (x.lv - 1)) sk r j
+      = c03k_phase (chain x.lv) sk x.ct j + c03k_rescaleErr (chain x.lv) sk x.ct j := by
+    intro j hj
+    have hcen := c03k_phase_centred hq' sk hcr (j := j) (by rw [hch.n _ (show x.lv - 1 ≤ top by omega)]; exact hj)
+    have hQz : (c03k_Q (chain x.lv) : Int) = (c03k_Q (chain (x.lv - 1)) : Int) * (c03k_qL (chain x.lv) : Int) := by
+      rw [hQ]; push_cast; ring
+    have hqLz : (0 : Int) < (c03k_qL (chain x.lv) : Int) := by exact_mod_cast hqLn
+    refine c03k_exact_of_close (v := rx.val j) (m := rx.mag) (e := rx.err + (c03k_qL (chain x.lv) : ℚ) * S / 2)
+      (hph j hj) ?_ ?_ (hx.mag j hj) hfits
+    · rw [hQz]
+      constructor <;> nlinarith [hcen.1, hcen.2, hqLz]
+    · have e3 : ((c03k_phase (chain x.lv) sk x.ct j + c03k_rescaleErr (chain x.lv) sk x.ct j : Int) : ℚ) - rx.val j
+          = (((c03k_phase (chain x.lv) sk x.ct j : Int) : ℚ) - rx.val j) + ((c03k_rescaleErr (chain x.lv) sk x.ct j : Int) : ℚ) := by
+        push_cast; ring
+      rw [e3]
+      exact le_trans (abs_add_le _ _) (add_le_add (hx.close j hj) (hrho j hj))
+  have hSnn : (0 : ℚ) ≤ S := by rw [← hS]; exact Nat.cast_nonneg _
+  refine ⟨by show x.lv - 1 = rx.lv - 1; rw [hx.lv], by show x.lv - 1 ≤ top; omega,
+    by show x.scale / _ = rx.scale / (c03k_qL (chain rx.lv) : ℚ); rw [hx.scale, hrlv],
+    by show r.polys.size = rx.size; rw [hsz, hx.size], hcr, fun j hj => ?_, fun j hj => ?_, ?_, ?_, hf⟩
+  · show |((c03k_phase (chain (x.lv - 1)) sk r j : Int) : ℚ) - rx.val j / (c03k_qL (chain rx.lv) : ℚ)|
+      ≤ (rx.err + (c03k_qL (chain rx.lv) : ℚ) * ((∑ k ∈ range rx.size, (c03k_skL1 N sk) ^ k : Nat) : ℚ) / 2) / (c03k_qL (chain rx.lv) : ℚ)
+    rw [hrlv, hS]
+    have h1 : ((c03k_phase (chain (x.lv - 1)) sk r j : Int) : ℚ)
+        = (((c03k_phase (chain x.lv) sk x.ct j : Int) : ℚ) + ((c03k_rescaleErr (chain x.lv) sk x.ct j : Int) : ℚ))
+          / (c03k_qL (chain x.lv) : ℚ) := by
+      have := congrArg (fun z : Int => (z : ℚ)) (hexact j hj)
+      beta_reduce at this
+      push_cast at this
+      rw [← this]
+      field_simp
+    rw [h1, ← sub_div, abs_div, abs_of_pos hqL]
+    apply div_le_div_of_nonneg_right _ (le_of_lt hqL)
+    have e3 : ((c03k_phase (chain x.lv) sk x.ct j : Int) : ℚ) + ((c03k_rescaleErr (chain x.lv) sk x.ct j : Int) : ℚ) - rx.val j
+        = (((c03k_phase (chain x.lv) sk x.ct j : Int) : ℚ) - rx.val j) + ((c03k_rescaleErr (chain x.lv) sk x.ct j : Int) : ℚ) := by ring
+    rw [e3]
+    exact le_trans (abs_add_le _ _) (add_le_add (hx.close j hj) (hrho j hj))
+  · show |rx.val j / (c03k_qL (chain rx.lv) : ℚ)| ≤ rx.mag / (c03k_qL (chain rx.lv) : ℚ)
+    rw [hrlv, abs_div, abs_of_pos hqL]
+    exact div_le_div_of_nonneg_right (hx.mag j hj) (le_of_lt hqL)
+  · show 0 ≤ rx.mag / (c03k_qL (chain rx.lv) : ℚ)
+    rw [hrlv]; exact div_nonneg hx.mag0 (le_of_lt hqL)
+  · show 0 ≤ (rx.err + (c03k_qL (chain rx.lv) : ℚ) * ((∑ k ∈ range rx.size, (c03k_skL1 N sk) ^ k : Nat) : ℚ) / 2) / (c03k_qL (chain rx.lv) : ℚ)
+    rw [hrlv, hS]
+    exact div_nonneg (add_nonneg hx.err0 (div_nonneg (mul_nonneg (le_of_lt hqL) hSnn) (by norm_num))) (le_of_lt hqL)
+
+theorem c03k_obind {α β : Type} {x : Option α} {f : α → Option β} {b : β} (h : (x >>= f) = some b) :
+    ∃ a, x = some a ∧ f a = some b := by
+  cases x with
+  | none => cases h
+  | some a => exact ⟨a, rfl, h⟩
+
+/-- the environment: every input ciphertext satisfies the invariant against its reference (level, scale, size, canonical,
+    |phase − reference| ≤ noise, |reference| ≤ magnitude, the interval fits); every plaintext is canonical at its level, its
+    reference polynomial is an integer lift (`c03k_PlainLift`) bounded by `bound` -/
+structure c03k_EnvOK (chain : Nat → Level) (top N : Nat) (sk : Array Int) (cts : Array c03k_Val) (refIn : Nat → c03k_Ref)
+    (pls : Array c03k_Plain) (plRef : Nat → c03k_PlainRef) : Prop where
+  inputs : ∀ (i : Nat) (v : c03k_Val), cts[i]? = some v → c03k_Inv chain top N sk v (refIn i)
+  plainCanon : ∀ (i : Nat) (q : c03k_Plain), pls[i]? = some q → RnsCanon (chain q.lv) q.poly
+  plainLift : ∀ (i : Nat) (q : c03k_Plain), pls[i]? = some q → c03k_PlainLift (chain q.lv) q.poly (plRef i).M
+  plainBound : ∀ i j, j < N → |(((plRef i).M j : Int) : ℚ)| ≤ (plRef i).bound
+  plainBound0 : ∀ i, 0 ≤ (plRef i).bound
+
+/-- K2 (invariant form): if the MODEL evaluation of a program succeeds and the reference evaluation (interval arithmetic) is defined,
+    the model's result satisfies the invariant against the reference result -/
+theorem ckks_program_inv {chain : Nat → Level} {top N : Nat} {sk : Array Int} (hch : c03k_ChainOK chain top N)
+    {cts : Array c03k_Val} {refIn : Nat → c03k_Ref} {pls : Array c03k_Plain} {plRef : Nat → c03k_PlainRef}
+    (henv : c03k_EnvOK chain top N sk cts refIn pls plRef) (prog : c03k_Prog) {v : c03k_Val} {r : c03k_Ref}
+    (hrun : c03k_run chain cts pls prog = .ok v)
+    (href : c03k_ref chain N (c03k_skL1 N sk) refIn pls plRef prog = some r) :
+    c03k_Inv chain top N sk v r := by
+  induction prog generalizing v r with
+  | input i =>
+    rw [c03k_run] at hrun
+    rw [c03k_ref] at href
+    obtain rfl := Option.some.inj href
+    cases hc : cts[i]? with
+    | none => rw [hc] at hrun; cases hrun
+    | some w =>
+      rw [hc] at hrun
+      obtain rfl := Except.ok.inj hrun
+      exact henv.inputs i w hc
+  | add a b iha ihb =>
+    rw [c03k_run] at hrun
+    rw [c03k_ref] at href
+    obtain ⟨x, hx, h1⟩ := c01p_bind_ok hrun
+    obtain ⟨y, hy, h2⟩ := c01p_bind_ok h1
+    obtain ⟨rx, hrx, g1⟩ := c03k_obind href
+    obtain ⟨ry, hry, g2⟩ := c03k_obind g1
+    obtain ⟨rfl, hf⟩ := c03k_guard_some g2
+    exact c03k_translate_sound hch false (iha hx hrx) (ihb hy hry) h2 hf
+  | sub a b iha ihb =>
+    rw [c03k_run] at hrun
+    rw [c03k_ref] at href
+    obtain ⟨x, hx, h1⟩ := c01p_bind_ok hrun
+    obtain ⟨y, hy, h2⟩ := c01p_bind_ok h1
+    obtain ⟨rx, hrx, g1⟩ := c03k_obind href
+    obtain ⟨ry, hry, g2⟩ := c03k_obind g1
+    obtain ⟨rfl, hf⟩ := c03k_guard_some g2
+    exact c03k_translate_sound hch true (iha hx hrx) (ihb hy hry) h2 hf
+  | neg a iha =>
+    rw [c03k_run] at hrun
+    rw [c03k_ref] at href
+    obtain ⟨x, hx, h1⟩ := c01p_bind_ok hrun
+    obtain ⟨rx, hrx, g1⟩ := c03k_obind href
+    obtain ⟨rfl, hf⟩ := c03k_guard_some g1
+    exact c03k_neg_sound hch (iha hx hrx) h1 hf
+  | mul a b iha ihb =>
+    rw [c03k_run] at hrun
+    rw [c03k_ref] at href
+    obtain ⟨x, hx, h1⟩ := c01p_bind_ok hrun
+    obtain ⟨y, hy, h2⟩ := c01p_bind_ok h1
+    obtain ⟨rx, hrx, g1⟩ := c03k_obind href
+    obtain ⟨ry, hry, g2⟩ := c03k_obind g1
+    obtain ⟨rfl, hf⟩ := c03k_guard_some g2
+    exact c03k_mul_sound hch (iha hx hrx) (ihb hy hry) h2 hf
+  | mulPlain a p iha =>
+    rw [c03k_run] at hrun
+    rw [c03k_ref] at href
+    obtain ⟨x, hx, h1⟩ := c01p_bind_ok hrun
+    obtain ⟨rx, hrx, g1⟩ := c03k_obind href
+    cases hc : pls[p]? with
+    | none => rw [hc] at h1; cases h1
+    | some q =>
+      rw [hc] at h1 g1
+      obtain ⟨rfl, hf⟩ := c03k_guard_some g1
+      exact c03k_mulPlain_sound hch (iha hx hrx) (henv.plainCanon p q hc) (henv.plainLift p q hc) (henv.plainBound p)
+        (henv.plainBound0 p) h1 hf
+  | rescale a iha =>
+    rw [c03k_run] at hrun
+    rw [c03k_ref] at href
+    obtain ⟨x, hx, h1⟩ := c01p_bind_ok hrun
+    obtain ⟨rx, hrx, g1⟩ := c03k_obind href
+    obtain ⟨rfl, hf⟩ := c03k_guard_some g1
+    exact c03k_rescale_sound hch (iha hx hrx) h1 hf
+  | drop a iha =>
+    rw [c03k_run] at hrun
+    rw [c03k_ref] at href
+    obtain ⟨x, hx, h1⟩ := c01p_bind_ok hrun
+    obtain ⟨rx, hrx, g1⟩ := c03k_obind href
+    obtain ⟨rfl, hf⟩ := c03k_guard_some g1
+    exact c03k_drop_sound hch (iha hx hrx) h1 hf
+
+/-- K2: the integer-level statement of C03's first sentence.  For every program over add, sub, negate, multiply, multiply_plain,
+    rescale, mod-switch: if the MODEL evaluation succeeds with value `v` and the reference evaluation yields `r`, then the result is
+    at the level the reference predicts, its recorded scale is EXACTLY the reference scale (products for multiplications, quotients
+    by the dropped primes for rescalings), it has the predicted number of polynomials, and every coefficient of its exact phase is
+    within the computed worst-case bound `r.err` of the reference polynomial `r.val` (itself bounded by `r.mag`) -/
+theorem ckks_program_sound {chain : Nat → Level} {top N : Nat} {sk : Array Int} (hch : c03k_ChainOK chain top N)
+    {cts : Array c03k_Val} {refIn : Nat → c03k_Ref} {pls : Array c03k_Plain} {plRef : Nat → c03k_PlainRef}
+    (henv : c03k_EnvOK chain top N sk cts refIn pls plRef) (prog : c03k_Prog) {v : c03k_Val} {r : c03k_Ref}
+    (hrun : c03k_run chain cts pls prog = .ok v)
+    (href : c03k_ref chain N (c03k_skL1 N sk) refIn pls plRef prog = some r) :
+    v.lv = r.lv ∧ v.scale = r.scale ∧ v.ct.polys.size = r.size ∧ c03k_Canon (chain v.lv) v.ct ∧
+      ∀ j, j < N → |((c03k_phase (chain v.lv) sk v.ct j : Int) : ℚ) - r.val j| ≤ r.err ∧ |r.val j| ≤ r.mag := by
+  have h := ckks_program_inv hch henv prog hrun href
+  exact ⟨h.lv, h.scale, h.size, h.canon, fun j hj => ⟨h.close j hj, h.mag j hj⟩⟩
 
 end HC
